@@ -559,7 +559,16 @@ class Engine:
 
         reg = TaskRegistry()
         reg.register("c16", Scripted)
-        self.processor = QueueProcessor(self.queue, store=self.store, task_registry=reg)
+        import os
+
+        from stabilize.resilience.config import HandlerConfig, reset_handler_config
+
+        # default engine except for the real-time delays (a not-yet-ready join / CompleteWorkflow re-polls after 15 s by
+        # default); the handlers read their delay from the process-wide default config, i.e. the environment
+        os.environ["STABILIZE_HANDLER_RETRY_DELAY_S"] = "0.02"
+        reset_handler_config()
+        hc = HandlerConfig(handler_retry_delay_seconds=0.02, task_backoff_min_delay_ms=1, task_backoff_max_delay_ms=2)
+        self.processor = QueueProcessor(self.queue, store=self.store, task_registry=reg, handler_config=hc)
         self.orch = Orchestrator(self.queue)
 
     def run(self, wf, timeout=60.0):
@@ -594,6 +603,17 @@ def gen_loop_case(rng) -> dict:
     return {"chain": chain, "a_outputs": per_iter, "own": own}
 
 
+def loop_variant() -> str:
+    """Which model variant the jump-loop suite is compared with: `fixed` (the planner records hydrated keys, the re-arm
+    drops them: `planned_context_is_current_iteration` is a theorem) unless known_findings.json declares F17 a *known*,
+    unrepaired finding of this checkout — then the code is compared with the `legacy` variant (for which the
+    counterexample theorem holds) and the oracle below still reports the finding on every run."""
+    for k in core.load_known():
+        if k.get("property") == "C16" and k.get("kind") == "known" and k.get("signature") == F17_SIG:
+            return "legacy"
+    return "fixed"
+
+
 F17_WITNESS = {"chain": 0, "a_outputs": [{"k0": 1, "k1": [1]}, {"k0": 2, "k1": [2]}, {"k0": 3, "k1": [3]}], "own": {}}
 
 
@@ -619,7 +639,7 @@ def loop_case(ctx, case: dict, lines, inputs, impl):
         status = res.status.name
     finally:
         eng.close()
-    line = f"merge loop fixed - {enc_outs(own)} " + "|".join(enc_outs(o) for o in a_out)
+    line = f"merge loop {loop_variant()} - {enc_outs(own)} " + "|".join(enc_outs(o) for o in a_out)
     lines.append(line)
     inputs.append({"suite": "loop", "case": case})
     impl.append("|".join(enc_outs(c, canonical=True) for c in seen_b) + ("" if status == "SUCCEEDED" else f" status={status}"))
@@ -643,7 +663,7 @@ def loop_case(ctx, case: dict, lines, inputs, impl):
                     f"jump loop A{'->M' * chain}->B, B jumps back to A: in iteration {i + 1} A output {a_out[i]!r} (B's own context {own!r}) "
                     f"but B's task was handed {k}={c.get(k, '<absent>')!r} instead of {want.get(k, '<absent>')!r} "
                     f"(the context planned in an earlier iteration is kept as B's own context)",
-                    F17_SIG, {"kind": "loop", "case": case, "seen_by_B": seen_b})
+                    F17_SIG if i > 0 else "loop:first-iteration-context-wrong", {"kind": "loop", "case": case, "seen_by_B": seen_b})
                 return
 
 
@@ -657,7 +677,7 @@ def gen_engine_case(rng) -> dict:
         if rng.random() < 0.4:
             ctxs[i] = {k: gen_value(rng) for k in rng.sample(KEYS + ["own0"], rng.randint(1, 3))}
         if len(reqs[i]) >= 2 and rng.random() < 0.5:
-            k = rng.choice(KEYS)
+            k = f"r{i}"          # one reducer key per join stage, so two joins never disagree about a branch's value type
             name = rng.choice(["sum", "max", "min", "collect", "extend", "last", "first", "merge"])
             reducers[i] = {k: name}
             for b in reqs[i]:
@@ -792,7 +812,7 @@ def run(ctx) -> None:
     ctx.correspond("loop", inputs, lines, impl)
 
     lines, inputs, impl = [], [], []
-    for _ in range(ctx.n(12, 120)):
+    for _ in range(ctx.n(12, 100)):
         engine_case(ctx, gen_engine_case(rng), lines, inputs, impl)
     if lines:
         ctx.sample({"suite": "engine-dag", "line": lines[0], "impl": impl[0]})
